@@ -7,16 +7,251 @@ From BPT Require Import Common.Base Common.AMap Rust.Tree Rust.Readers Rust.InvD
 Import ListNotations.
 Set Implicit Arguments.
 
+(* ------------------------------------------------------------------ *)
+(* generic *)
+Lemma firstn_snoc : forall (A : Type) (l : list A) i x,
+  nth_error l i = Some x -> firstn (S i) l = firstn i l ++ [x].
+Proof.
+  induction l as [|a l IH]; intros [|i] x H; cbn [nth_error] in H; try discriminate.
+  - cbn. congruence.
+  - change (a :: firstn (S i) l = a :: (firstn i l ++ [x])). f_equal. apply IH. exact H.
+Qed.
+
+(* a loop whose body does not change the state *)
+Lemma for_up_const : forall (St : Type) (body : nat -> St -> res St) cnt i s,
+  (forall j, i <= j < i + cnt -> body j s = Ok s) -> for_up cnt i body s = Ok s.
+Proof.
+  induction cnt as [|c IH]; intros i s H; cbn [for_up]; [reflexivity|].
+  rewrite H by lia. cbn [bind]. apply IH. intros j Hj. apply H. lia.
+Qed.
+
+(* ------------------------------------------------------------------ *)
+(* the tree after BPlusTree_clear: every live key and value slot is NULL, the live child
+   slots still hold (cleared) nodes; h = height *)
+Inductive cleared : nat -> cnode -> Prop :=
+| cl_leaf n :
+    nty n = NLeaf ->
+    (forall i, i < nk n -> nth_error (data n) i = Some SNull) ->
+    (forall i, i < nk n -> nth_error (data n) (ncap n + i) = Some SNull) ->
+    cleared 0 n
+| cl_branch h n :
+    nty n = NBranch ->
+    (forall i, i < nk n -> nth_error (data n) i = Some SNull) ->
+    (forall i, i <= nk n ->
+       exists c, nth_error (data n) (ncap n + i) = Some (SKid c) /\ cleared h c) ->
+    cleared (S h) n.
+
+(* node_destroy on a cleared tree releases nothing *)
+Lemma destroy_cleared : forall fuel h n rc,
+  cleared h n -> h < fuel -> node_destroy fuel rc n = Ok rc.
+Proof.
+  induction fuel as [|f IH]; intros h n rc C Hf; [lia|].
+  cbn [node_destroy].
+  inversion C as [n0 T K V | h0 n0 T K V]; subst.
+  - rewrite for_up_const.
+    2:{ intros j Hj. unfold xdecref_at. rewrite (get_key_ok _ _ (K j ltac:(lia))). reflexivity. }
+    cbn [bind]. rewrite T. apply for_up_const. intros j Hj. unfold xdecref_at.
+    rewrite (get_value_ok _ _ (V j ltac:(lia))). reflexivity.
+  - rewrite for_up_const.
+    2:{ intros j Hj. unfold xdecref_at. rewrite (get_key_ok _ _ (K j ltac:(lia))). reflexivity. }
+    cbn [bind]. rewrite T. apply for_up_const. intros j Hj.
+    destruct (V j) as (c & E & Cc); [lia|]. rewrite (get_child_ok _ _ E). cbn [bind].
+    apply IH with h0; [exact Cc|lia].
+Qed.
+
+(* ------------------------------------------------------------------ *)
+(* for (i = 0; i < k; i++) Py_CLEAR(data[off + i]) *)
+Lemma clear_loop : forall off os n rc,
+  holds (data n) off (map SObj os) -> off + length os <= length (data n) ->
+  exists n' rc', for_up (length os) 0 (clear_at off) (n, rc) = Ok (n', rc') /\ same_meta n n' /\
+    (forall j, nth_error (data n') j =
+       if Nat.leb off j && Nat.ltb j (off + length os) then Some SNull else nth_error (data n) j) /\
+    (forall o, rc_get rc' o = rc_get rc o - cnt (map kid os) o)%Z.
+Proof.
+  intros off os n rc H L.
+  destruct (@for_up_inv (cnode * rcmap)
+    (fun i st => i <= length os /\ same_meta n (fst st) /\
+       (forall j, nth_error (data (fst st)) j =
+          if Nat.leb off j && Nat.ltb j (off + i) then Some SNull else nth_error (data n) j) /\
+       (forall o, rc_get (snd st) o = rc_get rc o - cnt (map kid (firstn i os)) o)%Z)
+    (clear_at off) (length os) 0 (n, rc)) as ([n' rc'] & E & _ & SM & P & R).
+  - cbn [fst snd]. split; [lia|]. split; [apply same_meta_refl|]. split.
+    + intros j. bcases.
+    + intros o. cbn [firstn map]. rewrite cnt_nil. lia.
+  - intros i [m rcm] Hi (_ & SM & P & R). cbn [fst snd] in SM, P, R.
+    destruct SM as (M1 & M2 & M3 & M4 & M5 & M6).
+    destruct (nth_error_lt_Some os (i := i)) as (x & Ex); [lia|].
+    assert (Ed : nth_error (data m) (off + i) = Some (SObj x)).
+    { rewrite P. destruct (Nat.ltb_spec (off + i) (off + i)); [lia|]. rewrite andb_false_r.
+      apply (holds_nth (l := map SObj os)); auto. rewrite nth_error_map, Ex. reflexivity. }
+    unfold clear_at. rewrite (arr_get_ok _ _ _ Ed). cbn [bind xdecref].
+    rewrite arr_set_ok by lia. cbn [bind]. eexists. split; [reflexivity|].
+    cbn [fst snd]. autorewrite with nodeproj.
+    split; [lia|]. split; [|split].
+    + unfold same_meta. autorewrite with nodeproj. repeat split; auto.
+    + intros j. rewrite nth_error_set_nth.
+      destruct (Nat.eqb_spec j (off + i)) as [->|ne].
+      * destruct (Nat.ltb_spec (off + i) (length (data m))); [|lia]. bcases.
+      * rewrite P. bcases.
+    + intros o. rewrite rc_get_decref, R.
+      rewrite (@firstn_snoc _ _ _ _ Ex), map_app, cnt_app. cbn [map]. rewrite cnt_cons, cnt_nil.
+      destruct (N.eqb o (kid x)); lia.
+  - exists n', rc'. cbn [fst snd Nat.add] in SM, P, R. rewrite firstn_all in R.
+    split; [exact E|]. split; [exact SM|]. split; [exact P|exact R].
+Qed.
+
+(* ------------------------------------------------------------------ *)
+(* one unfolding of node_gc_clear *)
+Definition gc_child (f : nat) (i : nat) (st : cnode * rcmap) : res (cnode * rcmap) :=
+  let '(n, rc) := st in
+  do c <- get_child n i;
+  match c with
+  | SNull => Ok (n, rc)
+  | SKid ch =>
+      do r <- node_gc_clear f rc ch;
+      do n' <- set_child n i (SKid (fst r));
+      Ok (n', snd r)
+  | SObj _ => Panic 12
+  end.
+
+Lemma node_gc_clear_S : forall f rc n,
+  node_gc_clear (S f) rc n =
+    do r1 <- for_up (nk n) 0 (clear_at 0) (n, rc);
+    match nty n with
+    | NLeaf => for_up (nk n) 0 (clear_at (ncap n)) r1
+    | NBranch => for_up (S (nk n)) 0 (gc_child f) r1
+    end.
+Proof. reflexivity. Qed.
+
+Lemma gc_clear_leaf : forall f cap n id ks vs nx rc,
+  repr_leaf cap n id ks vs nx ->
+  exists n' rc1, node_gc_clear (S f) rc n = Ok (n', rc1) /\
+    (forall o, rc_get rc1 o = rc_get rc o - cnt (map kid ks ++ map kid vs) o)%Z /\
+    cleared 0 n'.
+Proof.
+  intros f cap n id ks vs nx rc R.
+  pose proof R as (R1 & R2 & R3 & R4 & R5 & R6 & R7 & R8 & R9 & R10).
+  rewrite node_gc_clear_S, R4.
+  destruct (@clear_loop 0 ks n rc) as (n1 & rc1 & E1 & SM1 & P1 & C1); auto; [lia|].
+  rewrite E1. cbn [bind]. rewrite R2, R3.
+  destruct SM1 as (M1 & M2 & M3 & M4 & M5 & M6).
+  destruct (@clear_loop cap vs n1 rc1) as (n2 & rc2 & E2 & SM2 & P2 & C2).
+  { intros i Hi. rewrite map_length in Hi. rewrite P1. cbn [Nat.leb Nat.add andb].
+    destruct (Nat.ltb_spec (cap + i) (length ks)); [lia|]. apply R10. rewrite map_length. exact Hi. }
+  { lia. }
+  rewrite R7 in E2. rewrite E2. exists n2, rc2. split; [reflexivity|]. split.
+  - intros o. rewrite C2, C1, cnt_app. lia.
+  - destruct SM2 as (N1 & N2 & N3 & N4 & N5 & N6). apply cl_leaf.
+    + congruence.
+    + intros i Hi. rewrite N4, M4, R4 in Hi. rewrite P2.
+      destruct (Nat.leb_spec cap i); [lia|]. cbn [andb]. rewrite P1. cbn [Nat.leb Nat.add andb].
+      destruct (Nat.ltb_spec i (length ks)); [reflexivity|lia].
+    + intros i Hi. rewrite N4, M4, R4 in Hi. rewrite N3, M3, R3. rewrite P2.
+      destruct (Nat.leb_spec cap (cap + i)); [|lia].
+      destruct (Nat.ltb_spec (cap + i) (cap + length vs)); [reflexivity|lia].
+Qed.
+
+Lemma gc_clear_branch : forall f cap h n id ks cs rc,
+  (forall c rc0, In c cs ->
+     exists c' rc', node_gc_clear f rc0 c = Ok (c', rc') /\
+       (forall o, rc_get rc' o = rc_get rc0 o - cnt (prefs (abs c)) o)%Z /\ cleared h c') ->
+  repr_branch cap n id ks cs ->
+  exists n' rc1, node_gc_clear (S f) rc n = Ok (n', rc1) /\
+    (forall o, rc_get rc1 o = rc_get rc o - cnt (map kid ks ++ flat_map prefs (map abs cs)) o)%Z /\
+    cleared (S h) n'.
+Proof.
+  intros f cap h n id ks cs rc IH R.
+  pose proof R as (R1 & R2 & R3 & R4 & R5 & R6 & R7 & R8 & R9).
+  rewrite node_gc_clear_S, R4.
+  destruct (@clear_loop 0 ks n rc) as (n1 & rc1 & E1 & SM1 & P1 & C1); auto; [lia|].
+  rewrite E1. cbn [bind]. rewrite R2.
+  destruct SM1 as (M1 & M2 & M3 & M4 & M5 & M6).
+  destruct (@for_up_inv (cnode * rcmap)
+    (fun i st => i <= length cs /\ same_meta n1 (fst st) /\
+       (forall j, j < cap \/ cap + i <= j -> nth_error (data (fst st)) j = nth_error (data n1) j) /\
+       (forall j, j < i ->
+          exists c, nth_error (data (fst st)) (cap + j) = Some (SKid c) /\ cleared h c) /\
+       (forall o, rc_get (snd st) o =
+                  rc_get rc1 o - cnt (flat_map prefs (map abs (firstn i cs))) o)%Z)
+    (gc_child f) (S (length ks)) 0 (n1, rc1)) as ([n2 rc2] & E2 & _ & SM2 & Q1 & Q2 & C2).
+  - cbn [fst snd]. split; [lia|]. split; [apply same_meta_refl|]. split; [|split].
+    + intros j _. reflexivity.
+    + intros j Hj. lia.
+    + intros o. cbn [firstn map flat_map]. rewrite cnt_nil. lia.
+  - intros i [m rcm] Hi (_ & SM & Q1 & Q2 & C). cbn [fst snd] in SM, Q1, Q2, C.
+    destruct SM as (N1 & N2 & N3 & N4 & N5 & N6).
+    destruct (nth_error_lt_Some cs (i := i)) as (ci & Eci); [lia|].
+    assert (Ed : nth_error (data m) (ncap m + i) = Some (SKid ci)).
+    { rewrite N3, M3, R3. rewrite Q1 by lia. rewrite P1. cbn [Nat.leb Nat.add andb].
+      destruct (Nat.ltb_spec (cap + i) (length ks)); [lia|].
+      apply (holds_nth (l := map SKid cs)); auto. rewrite nth_error_map, Eci. reflexivity. }
+    unfold gc_child. rewrite (get_child_ok _ _ Ed). cbn [bind].
+    destruct (IH ci rcm) as (c' & rc' & Ec & Cc & CLc). { eapply nth_error_In; eauto. }
+    rewrite Ec. cbn [bind fst snd].
+    rewrite set_child_ok by (rewrite N3, M3, R3, N6, M6, R5; lia).
+    cbn [bind]. eexists. split; [reflexivity|]. cbn [fst snd]. autorewrite with nodeproj.
+    rewrite N3, M3, R3.
+    split; [lia|]. split; [|split; [|split]].
+    + unfold same_meta. autorewrite with nodeproj. repeat split; auto.
+    + intros j Hj. rewrite nth_error_set_nth_other by lia. apply Q1. lia.
+    + intros j Hj. destruct (Nat.eq_dec j i) as [->|ne].
+      * exists c'. rewrite nth_error_set_nth_same by (rewrite N6, M6, R5; lia). auto.
+      * destruct (Q2 j) as (c & Ecj & CL); [lia|]. exists c.
+        rewrite nth_error_set_nth_other by lia. auto.
+    + intros o. rewrite Cc, C.
+      rewrite (@firstn_snoc _ _ _ _ Eci), map_app, flat_map_app, cnt_app. cbn [map flat_map].
+      rewrite app_nil_r. lia.
+  - exists n2, rc2. cbn [fst snd Nat.add] in SM2, Q1, Q2, C2.
+    rewrite <- R6 in C2. rewrite firstn_all in C2.
+    split; [exact E2|]. split.
+    + intros o. rewrite C2, C1, cnt_app. lia.
+    + destruct SM2 as (N1 & N2 & N3 & N4 & N5 & N6). apply cl_branch.
+      * congruence.
+      * intros i Hi. rewrite N4, M4, R4 in Hi. rewrite Q1 by lia. rewrite P1.
+        cbn [Nat.leb Nat.add andb]. destruct (Nat.ltb_spec i (length ks)); [reflexivity|lia].
+      * intros i Hi. rewrite N4, M4, R4 in Hi. rewrite N3, M3, R3. apply Q2. lia.
+Qed.
+
+(* BPlusTree_clear gives back every reference held in the live slots and leaves a cleared
+   tree of the same height *)
+Lemma gc_clear_spec : forall fuel cap n rc h,
+  wf cap n -> cshape cap h (abs n) -> h < fuel ->
+  exists n' rc1, node_gc_clear fuel rc n = Ok (n', rc1) /\
+    (forall o, rc_get rc1 o = rc_get rc o - cnt (prefs (abs n)) o)%Z /\
+    cleared h n'.
+Proof.
+  induction fuel as [|f IH]; intros cap n rc h W Sh Hf; [lia|].
+  inversion W as [n0 id ks vs nx R | n0 id ks cs R Hc]; subst n0.
+  - rewrite (repr_leaf_abs R) in Sh |- *.
+    destruct (cshape_leaf_inv Sh) as (-> & _). cbn [prefs].
+    eapply gc_clear_leaf; eauto.
+  - rewrite (repr_branch_abs R) in Sh |- *.
+    destruct (cshape_branch_inv Sh) as (h' & -> & _ & _ & _ & Hs). cbn [prefs].
+    eapply gc_clear_branch; eauto.
+    intros c rc0 Hin. apply IH with cap; [apply Hc; exact Hin| |lia].
+    apply Hs. apply in_map. exact Hin.
+Qed.
+
 Lemma dealloc_spec : forall fuel cap n rc h,
   wf cap n -> cshape cap h (abs n) -> h < fuel ->
   exists n' rc1, node_gc_clear fuel rc n = Ok (n', rc1) /\
     (forall o, rc_get rc1 o = rc_get rc o - cnt (prefs (abs n)) o)%Z /\
     node_destroy fuel rc1 n' = Ok rc1.
 Proof.
-Admitted.
+  intros fuel cap n rc h W Sh Hf.
+  destruct (@gc_clear_spec fuel cap n rc h W Sh Hf) as (n' & rc1 & E & C & CL).
+  exists n', rc1. split; [exact E|]. split; [exact C|].
+  apply destroy_cleared with h; auto.
+Qed.
 
 Theorem tree_dealloc_ok : forall t rc, CInv t ->
   exists rc', tree_dealloc t rc = Ok rc' /\
     (forall o, rc_get rc' o = rc_get rc o - cnt (prefs (abs (root t))) o)%Z.
 Proof.
-Admitted.
+  intros t rc I. destruct (ci_shape I) as (h & Sh).
+  assert (Hf : h < fuel_of t).
+  { pose proof (cshape_height_lt_count Sh). pose proof (ci_count I). unfold fuel_of. lia. }
+  destruct (@dealloc_spec (fuel_of t) (tcap t) (root t) rc h (ci_wf I) Sh Hf)
+    as (n' & rc1 & E & C & D).
+  exists rc1. unfold tree_dealloc. rewrite E. cbn [bind fst snd]. split; [exact D|exact C].
+Qed.
